@@ -56,11 +56,36 @@ def _wrapper(spec: dict[str, Any]) -> Any:
         return fm.DEFAULT_SEMANTIC_LINE_WRAPPER
     if k == "default_fixed":
         return fm.DEFAULT_FIXED_LINE_WRAPPER
+    extra: dict[str, Any] = {}
+    if spec.get("len_fn") == "wide":
+        extra["len_fn"] = _wide_len
     if k == "to_width":
-        return flowmark.line_wrap_to_width(width=spec["width"], is_markdown=spec["is_markdown"])
+        return flowmark.line_wrap_to_width(width=spec["width"], is_markdown=spec["is_markdown"], **extra)
     if k == "by_sentence":
-        return flowmark.line_wrap_by_sentence(width=spec["width"], is_markdown=spec["is_markdown"])
+        if "min_line_len" in spec:
+            extra["min_line_len"] = spec["min_line_len"]
+        if spec.get("split") == "first_only":
+            extra["split_sentences"] = _split_first_only
+        return flowmark.line_wrap_by_sentence(width=spec["width"], is_markdown=spec["is_markdown"], **extra)
+    if k == "identity":
+        return _identity_wrapper
     raise ValueError(k)
+
+
+# user-supplied callables (every public parameter of the wrapper factories is part of "options")
+def _wide_len(s: str) -> int:
+    return sum(2 if ord(ch) > 0x2E7F else 1 for ch in s)
+
+
+def _split_first_only(text: str) -> list[str]:
+    import flowmark
+
+    parts = flowmark.split_sentences_regex(text, min_length=0)
+    return [parts[0], " ".join(parts[1:])] if len(parts) > 1 else parts
+
+
+def _identity_wrapper(text: str, initial_indent: str, subsequent_indent: str) -> str:
+    return initial_indent + " ".join(text.split())
 
 
 def exec_call(c: dict[str, Any]) -> str:
@@ -79,6 +104,8 @@ def exec_call(c: dict[str, Any]) -> str:
         return flowmark.fill_markdown(c["text"], **kw)
     if api == "fill_text":
         kw["text_wrap"] = flowmark.Wrap(kw.get("text_wrap", "wrap"))
+        if kw.get("word_splitter") == "simple":
+            kw["word_splitter"] = flowmark.simple_word_splitter
         return flowmark.fill_text(c["text"], **kw)
     if api == "convert":
         md = flowmark.flowmark_markdown(kw["line_wrapper"], kw.get("list_spacing", ListSpacing.preserve))
@@ -150,11 +177,18 @@ WRAPS = ["none", "wrap", "wrap_full", "wrap_indent", "indent_only", "hanging_ind
 
 
 def _gen_wrapper(rng: Any) -> dict[str, Any]:
-    k = rng.choice(["default_semantic", "default_fixed", "to_width", "by_sentence"])
+    k = rng.choice(["default_semantic", "default_fixed", "to_width", "by_sentence", "by_sentence", "identity"])
     spec: dict[str, Any] = {"kind": k}
     if k in ("to_width", "by_sentence"):
-        spec["width"] = rng.choice([0, 20, 40, 88])
+        spec["width"] = rng.choice([0, 20, 40, 60, 88])
         spec["is_markdown"] = rng.random() < 0.8
+        if rng.random() < 0.2:
+            spec["len_fn"] = "wide"
+    if k == "by_sentence":
+        if rng.random() < 0.5:
+            spec["min_line_len"] = rng.choice([0, 5, 40, 20])
+        if rng.random() < 0.15:
+            spec["split"] = "first_only"
     return spec
 
 
@@ -181,6 +215,12 @@ def gen_call(rng: Any, text: str | None = None, base: dict[str, Any] | None = No
         kw = {"text_wrap": rng.choice(WRAPS), "width": rng.choice([20, 40, 88])}
         if rng.random() < 0.3:
             kw["extra_indent"] = rng.choice(["  ", "> "])
+        if rng.random() < 0.15:
+            kw["empty_indent"] = rng.choice([">", " #"])
+        if rng.random() < 0.15:
+            kw["initial_column"] = rng.choice([4, 30])
+        if rng.random() < 0.15:
+            kw["word_splitter"] = "simple"
         return {"api": api, "text": text, "kw": kw}
     if api == "convert":
         return {"api": api, "text": text, "kw": {"line_wrapper": _gen_wrapper(rng), "list_spacing": rng.choice(corpus.LIST_SPACINGS)}}
